@@ -44,9 +44,29 @@ MC_B5 == << V("x", "exo", << >>, 0, ""),
             V("t_minus_1", "lag", << >>, 0, "t"),
             V("v", "sim", << "x", "t_minus_1" >>, 0, "") >>
 
+(* Variable names as a dimension: the same blueprints under names that end in the digit 0, *)
+(* hold a 0 inside, and come in pairs where one name is the other plus a trailing 0 (h1 next *)
+(* to h10, L1 next to L10): "NAME(0) = v" must reach exactly the variable NAME.              *)
+RenOne(m, n) == IF \E i \in 1..Len(m) : m[i][1] = n
+                THEN m[CHOOSE i \in 1..Len(m) : m[i][1] = n][2] ELSE n
+RECURSIVE RenSeq(_, _)
+RenSeq(m, ns) == IF ns = << >> THEN << >> ELSE << RenOne(m, Head(ns)) >> \o RenSeq(m, Tail(ns))
+RECURSIVE RenVars(_, _)
+RenVars(m, vs) ==
+    IF vs = << >> THEN << >>
+    ELSE LET v == Head(vs)
+         IN << V(RenOne(m, v.name), v.cls, RenSeq(m, v.refs), v.add,
+                 IF v.src = "" THEN "" ELSE RenOne(m, v.src)) >> \o RenVars(m, Tail(vs))
+
+Z1 == << << "c", "h1" >>, << "y", "h10" >>, << "L", "W0" >>, << "z", "x100" >>, << "d", "d00" >>, << "q", "a0b" >> >>
+Z3 == << << "y", "y0" >>, << "L2", "L10" >>, << "d", "d0" >>, << "g", "g20" >> >>
+Z4 == << << "Lx", "R0" >>, << "v", "v10" >> >>
+
 BP(b) == CASE b = "B1" -> MC_B1 [] b = "B2" -> MC_B2 [] b = "B3" -> MC_B3 [] b = "B4" -> MC_B4
            [] b = "B5" -> MC_B5
-BPs == {"B1", "B2", "B3", "B4", "B5"}
+           [] b = "B1z" -> RenVars(Z1, MC_B1) [] b = "B3z" -> RenVars(Z3, MC_B3) [] b = "B4z" -> RenVars(Z4, MC_B4)
+ZBPs == {"B1z", "B3z", "B4z"}
+BPs == {"B1", "B2", "B3", "B4", "B5"} \cup ZBPs
 
 PathVals == << 3, 1, 4, 1, 5, 9, 2, 6, 5, 3 >>
 Path(n) == SubSeq(PathVals, 1, n)
@@ -119,6 +139,8 @@ KeepQuick(c) == /\ ExoRejected(c) => (c.ics = << >> \/ (Len(c.ics) > 1 /\ c.icfo
                                  /\ c.late # c.horizon + 1)
                 /\ HasTimeIC(c) => (c.where \in {"block", "solver"} /\ ~ExoRejected(c)
                                     /\ (c.exo.form = "scalar" \/ (c.exo.form = "list" /\ Len(c.exo.vals) = c.horizon + 1)))
+                /\ c.bp \in ZBPs => (c.where = "block" /\ ~HasTimeIC(c)
+                                     /\ (c.exo.form = "scalar" \/ (c.exo.form = "list" /\ Len(c.exo.vals) = c.horizon + 1)))
                 /\ c.bp = "B5" => (c.where \in {"block", "solver"} /\ c.icform = "float"
                                    /\ c.exo.form \in {"list", "scalar", "strexpr"})
                 /\ c.where = "both" => (c.reduce /\ c.icform = "float" /\ (c.ics = << >> \/ Len(c.ics) > 1))
@@ -172,8 +194,9 @@ InitThorough ==
               LET c == Mk(b, hw, x, ic, r)
                   keep == /\ (IsLate(c) => (c.reduce /\ c.late # c.horizon + 1)) /\ (c.where = "both" => c.reduce)
                           /\ ((HasTimeIC(c) \/ c.bp = "B5") => c.where \in {"block", "solver", "default"})
+                          /\ (c.bp \in ZBPs => (c.where = "block" /\ ~HasTimeIC(c) /\ c.exo.form \in {"list", "scalar"}))
               IN keep /\ StartWith(c)
-    \/ PairInit(BPs, 0..5, {0, 3})
+    \/ PairInit(BPs \ ZBPs, 0..5, {0, 3})
 
 NoConfigs == {}
 
